@@ -2,9 +2,10 @@
    The static side condition on inherited names: `inh_static t fl ms` — there is a family D of syntax nodes per name such that
    every definition of an inherited name, in every statement (at any depth) of every stanza, has a CAPTURE as its scope
    expression whose nodes in every supplied match lie in D (`file_sdef`), and D is an antichain of the tree for every
-   inherited name.  It implies `inh_antichain` on every scoped store the strict run can reach, and it also covers the
-   definitions strict execution never reached: after the failure point lazy execution goes on and a later definition on a
-   NEARER ancestor would change the value a read before the failure point resolves to (strict_fail_lazy_ok_inherited_refuted). *)
+   inherited name.  It is the static counterpart of `inh_antichain` (Proofs/SL2Whole.v, a condition on the FINAL strict store):
+   a failing strict run has no final store, and the condition must also cover the definitions strict execution never
+   reached — after the failure point lazy execution goes on, and a later definition on a NEARER ancestor would change the
+   value that a read before the failure point resolves to (witness sr2 of Proofs/SLF2Example.v). *)
 From TSG Require Import Model.Lazy Model.Stdlib Proofs.BaseFacts Proofs.Containers Proofs.MonadFacts Proofs.StrictMeta
   Proofs.SLGraph Proofs.SLForce Proofs.SLExpr Proofs.SLConv Proofs.SLStmt Proofs.StrictLazy Proofs.Extends Proofs.Scoped
   Proofs.SL2Force Proofs.SL2Expr Proofs.SL2Stmt Proofs.SL2Whole Proofs.SLFailGraph Proofs.SLFailStore Proofs.SLFailEval Proofs.SLFailExpr Proofs.SLFailStmt
